@@ -128,7 +128,12 @@ pub fn run_history(h: &History, letters: Option<&[Letter]>, owned: &Owned, prop_
             // directly through an accessor"; whether the other half sees that store is not fixed, so
             // both outcomes are accepted and the model follows the context
             if let Op::AccReq(v) | Op::AccResp(v) = op {
-                if obs.eids == (*v, *v) && (models[ci].req_eid, models[ci].resp_eid) != (*v, *v) {
+                if *v == 0x00 || *v == 0xFF {
+                    // C13 quantifies accessor stores over EIDs 0x01-0xFE: whether the null or the
+                    // broadcast EID is adopted is free (benign/C13-k ignores 0xFF)
+                    models[ci].resync(obs.eids);
+                    rep.class("accessor-store-of-eid-0x00-or-0xff:unjudged,model-resynchronised");
+                } else if obs.eids == (*v, *v) && (models[ci].req_eid, models[ci].resp_eid) != (*v, *v) {
                     models[ci].resync(obs.eids);
                     rep.class("accessor-store-visible-through-both-halves:model-follows");
                 }
